@@ -11,6 +11,8 @@ import RotoV.Generated.Precedence
 import RotoV.Model.FString
 import RotoV.Lemmas.Pratt
 import RotoV.Lemmas.Literal
+import RotoV.Generated.LookAhead
+import RotoV.Lemmas.LookAhead
 
 namespace RotoV.C09
 open RotoV RotoV.Pratt RotoV.Literal RotoV.FString RotoV.Gen.Precedence
@@ -261,5 +263,118 @@ example : partText "é\\x7b\\x7b{{\\t}}".toList = some "é{{{\t}".toList := by
       · exact ht
       · trivial)
   simpa [spell, meaning, Item.spelling, Item.value] using this
+
+/-! ## T6 look-ahead and lexer modes (bracketed constructs)
+
+`Lexer` keeps a queue of tokens lexed ahead in normal mode; `f_string_part`
+scans the raw input. The facts below are over the definitions generated from
+`Lexer::peek_many` (`Gen.LookAhead.peekStops`) and from the windows `atom`
+tries on `{` (`Gen.LookAhead.recordWindows`). -/
+
+/-- the parser model instantiated with the generated look-ahead facts -/
+def cfgGen : LookAhead.Cfg := ⟨Gen.LookAhead.peekStops, Gen.LookAhead.recordWindows⟩
+
+/-- T6a (`lookahead_mode_safe`). For EVERY lexer state whose queue is mode-safe
+    (only its last token may be `f"`) — in particular the initial one — and
+    EVERY window size, every queue operation of the lexer (`peek_many::<n>`
+    with the generated stop tokens, `peek`, `next`) leaves the queue mode-safe:
+    no token is ever lexed in normal mode past the start of an f-string,
+    whatever the parser looks ahead for. -/
+theorem lookahead_mode_safe (s : LookAhead.Lx) (h : LookAhead.ModeSafe s) :
+    (∀ n w s', LookAhead.peekMany Gen.LookAhead.peekStops n s = .ok w s' → LookAhead.ModeSafe s') ∧
+    LookAhead.ModeSafe s.peek.2 ∧
+    (∀ t s', s.next = some (t, s') → LookAhead.ModeSafe s') :=
+  ⟨fun n => LookAhead.peekMany_modeSafe _ (by decide) n s h,
+   LookAhead.peek_modeSafe s h, LookAhead.next_modeSafe s h⟩
+
+/-- T6b (`fstring_scanner_starts_at_text`). When the parser takes `f"` from a
+    mode-safe lexer the queue is empty afterwards, so `f_string_part` — which
+    reads the raw input — starts exactly at the f-string's text. The initial
+    state is mode-safe. -/
+theorem fstring_scanner_starts_at_text (s s' : LookAhead.Lx) (h : LookAhead.ModeSafe s)
+    (hn : s.next = some (LookAhead.Tok.fstart, s')) : s'.peeked = [] :=
+  LookAhead.next_fstart_fresh s h s' hn
+
+example : LookAhead.ModeSafe ⟨[.n .lcurly, .n .fstart, .fend 1, .n .rcurly], []⟩ := by decide
+
+/-- non-vacuity of T6a/T6b on the witness `{ f"hello" }`: the three-token
+    window of `atom` stops at `f"` (two tokens queued, `hello"` unread). -/
+example :
+    LookAhead.peekMany Gen.LookAhead.peekStops 3 ⟨[.n .lcurly, .n .fstart, .fend 1, .n .rcurly], []⟩ =
+      .ok none ⟨[.fend 1, .n .rcurly], [.lcurly, .fstart]⟩ := by decide
+
+/-- T6c (`lookahead_roundtrip_bounded`). The model of `atom` / `access` /
+    `block` / `record` / `separated` / `f_string`, run with the generated
+    look-ahead facts on the text the documented grammar assigns to a tree,
+    returns that tree, consumes the whole input and leaves the queue empty —
+    for each of the 2 964 trees of `boundedTrees`: every subject (identifier,
+    literal, unit, f-strings of every part shape incl. nested, empty records,
+    path) at every position of every bracketed construct (parenthesised
+    expression, list item, record / typed-record field, block statement /
+    `let` / last expression, call argument, f-string hole, operand, call /
+    field target), those nested two deep, and the bracket-opening ones three
+    deep.
+    Full statement (NOT proved; the quantifier over all trees is sampled by the
+    correspondence run — real parser vs this model vs the generator's tree):
+    `∀ e, Canonical e → parseAll cfgGen (render e) = .ok e ⟨[], []⟩`. -/
+theorem lookahead_roundtrip_bounded :
+    LookAhead.boundedTrees.all (LookAhead.roundTrips cfgGen) = true := by
+  decide +kernel
+
+example : LookAhead.boundedTrees.length = 2964 ∧
+    (LookAhead.T.block (.last (.fstr (.part 1 .lit (.fin 1))))) ∈ LookAhead.boundedTrees := by
+  decide +kernel
+
+/-- T6c′ (`block_fstring_all`). For EVERY f-string whose holes hold one
+    identifier or one literal — ANY number of text / hole parts, any texts
+    (`FlatParts`) — the blocks that begin with it, `{ f"…" }`, `{ f"…"; }` and
+    `{ f"…"; lit }`, parse (model with the generated look-ahead facts, the fuel
+    `parseAll` supplies) to the documented tree, the whole input consumed and
+    the queue empty: the look-ahead of `atom` never disturbs the f-string
+    scanner, whatever the f-string looks like. -/
+theorem block_fstring_all (ps : LookAhead.T) (h : LookAhead.FlatParts ps = true) :
+    ∀ e ∈ LookAhead.blockShapes ps, LookAhead.parseAll cfgGen (LookAhead.render e) = .ok e ⟨[], []⟩ :=
+  LookAhead.block_fstring_parse cfgGen (by decide) (by decide) ps h
+
+/-- non-vacuity: `{ f"hello {1} world" }` (the reviewer's witness) is an instance -/
+example : LookAhead.parseAll cfgGen [.n .lcurly, .n .fstart, .ftext 1, .n .lcurly, .n .lit, .n .rcurly, .fend 2, .n .rcurly] =
+    .ok (.block (.last (.fstr (.part 1 .lit (.fin 2))))) ⟨[], []⟩ := by
+  have := block_fstring_all (.part 1 .lit (.fin 2)) (by decide) (.block (.last (.fstr (.part 1 .lit (.fin 2))))) (by decide)
+  simpa [LookAhead.render, LookAhead.renderItems, LookAhead.renderParts] using this
+
+/-- T6d. Refutation on the tree before `fix: do not look ahead past the start
+    of an f-string`: with no stop token the three-token window of `atom` lexes
+    the text of `{ f"hello" }` in normal mode (the queue ends up with a junk
+    token behind `f"`, mode safety is lost) and the block is not parsed;
+    1 in 8 of the bounded trees is affected. With the generated facts the same
+    text parses to the documented tree. -/
+theorem lookahead_unguarded_refuted :
+    let src : List LookAhead.Sym := [.n .lcurly, .n .fstart, .fend 1, .n .rcurly]
+    LookAhead.render (.block (.last (.fstr (.fin 1)))) = src ∧
+    LookAhead.peekMany [] 3 ⟨src, []⟩ = .ok (some [.lcurly, .fstart, .junk]) ⟨[.n .rcurly], [.lcurly, .fstart, .junk]⟩ ∧
+    ¬ LookAhead.ModeSafe ⟨[.n .rcurly], [.lcurly, .fstart, .junk]⟩ ∧
+    LookAhead.parseAll LookAhead.cfgUnguarded src = .err ∧
+    LookAhead.parseAll cfgGen src = .ok (.block (.last (.fstr (.fin 1)))) ⟨[], []⟩ := by
+  decide
+
+/-- T6e (`return_value_starts`). Every token that can begin an expression of
+    the documented grammar (opening brackets, identifiers and path keywords,
+    prefix operators, EVERY literal kind, `f"`, `if`, `match`) is accepted by
+    the generated `can_start_expression`: after `return` / `accept` / `reject`
+    the value is parsed whatever it starts with. -/
+theorem return_value_starts :
+    ∀ t ∈ LookAhead.exprStarts, t ∈ Gen.LookAhead.returnValueStarts := by
+  decide
+
+example : LookAhead.Start.fStringStart ∈ LookAhead.exprStarts ∧ LookAhead.exprStarts.length = 22 := by decide
+
+/-- T6f. Refutation on the tree before `fix: return / accept / reject take a
+    value that starts with a char, hex or f-string literal, …`: the old token
+    set misses `f"`, char and hex literals and the keywords that start an
+    expression (`return f"x"`, `return 'a'`, `return 0x10`, `return if …`). -/
+theorem return_value_starts_refuted_before_fix :
+    LookAhead.exprStarts.filter (fun t => !LookAhead.returnStartsOld.contains t) =
+      [.hex, .char, .fStringStart, .kwIf, .kwMatch, .kwSuper, .kwPkg, .kwDep, .kwStd] := by
+  decide
 
 end RotoV.C09
